@@ -12,6 +12,7 @@ import Ymq.Lemmas.IntMatCrt
 import Ymq.Lemmas.IntMatPerm
 import Ymq.Lemmas.SnfCols
 import Ymq.Lemmas.SnfDiag
+import Ymq.Lemmas.SnfReduceCols
 import Mathlib.Algebra.Order.BigOperators.Group.List
 import Mathlib.Data.Int.GCD
 
@@ -267,7 +268,9 @@ theorem snf_ops_unimodular_partial (s s' : St) (hs : s.small = true) :
   · intro i j k hi hj hij hr hq h
     obtain ⟨h1, h2, _, _, _, φ, h3, h4⟩ := colsub_spec s s' i j k hs hi hj hij hr hq h
     exact ⟨h1, h2, φ, h3, h4⟩
-  · intro i j hi hj h; exact colswap_spec s s' i j hs hi hj h
+  · intro i j hi hj h
+    obtain ⟨h1, h2, _, φ, h3, h4⟩ := colswap_spec s s' i j hs hi hj h
+    exact ⟨h1, h2, φ, h3, h4⟩
 
 /-- non-vacuity: on the state `h = 100`, `rows = [[4, 6], [6, 3]]` the general branch of `eliminate`
 (Bezout combination of the two rows) runs and returns `[[2, 97], [0, 88]]` (also a K corpus line) -/
@@ -285,5 +288,30 @@ the field `h`.) -/
 theorem snf_diag (s s' : St) (h : s.reduce = some s') (h0 : 0 < s'.h) (h1 : s'.h < 2 ^ 125) :
     IsDiag s'.rows ∧ ∃ ds, diagList s'.rows = some ds ∧ ds.prod = (s'.h : Int) :=
   reduce_diag h h0 h1
+
+/-- **The column phase `reduce_cols` is a change of generators** — PARTIAL (`0 < h < 2^63`, as
+`snf_ops_unimodular_partial`; the row phase `reduce_rows`, which also discards relations and
+generators, is not covered). For the square matrix handed to `reduce_cols`, whatever sequence of
+`colsub`/`colswap` steps the loops perform (up to 10 passes, `while` loops with fuel), there is one
+automorphism `φ` of `(Z/h)^n` such that the relation module of the result is the `φ`-image of the
+relation module of the input and the rows of the returned `q` are the `φ`-images of the rows of the
+identity matrix; consequently the group presented by the input and the group presented by the
+(diagonal) output are isomorphic `Z/h`-modules, and `q` is the matrix of the isomorphism. -/
+theorem snf_reduce_cols_iso_partial (s s' : St) (hs : s.small = true)
+    (hsq : s.rows.length = s.gens.length) (h : s.reduceCols = some s') :
+    (∃ φ : (Fin s.gens.length → ZMod s.h) ≃ₗ[ZMod s.h] (Fin s.gens.length → ZMod s.h),
+      RowsMapped s.h s.gens.length φ (identity s.rows.length) s'.q ∧
+      rowSpan s.h s.gens.length s'.rows = (rowSpan s.h s.gens.length s.rows).map φ.toLinearMap) ∧
+    Nonempty (((Fin s.gens.length → ZMod s.h) ⧸ rowSpan s.h s.gens.length s.rows) ≃ₗ[ZMod s.h]
+      ((Fin s.gens.length → ZMod s.h) ⧸ rowSpan s.h s.gens.length s'.rows)) := by
+  obtain ⟨_, _, _, φ, h1, h2⟩ := reduceCols_spec s s' hs hsq h
+  exact ⟨⟨φ, h1, h2⟩, reduceCols_quotient_iso s s' hs hsq h⟩
+
+/-- non-vacuity: `reduce_cols` on `h = 8`, `[[2,1,0],[0,2,1],[0,0,2]]` returns the diagonal `1, 1, 0`
+(i.e. `Z/8`), the K corpus line `snf_reduce_cols 8 5,3,2 2,1,0;0,2,1;0,0,2` -/
+example : ∃ s : St, s.small = true ∧ s.rows.length = s.gens.length ∧
+    (s.reduceCols).map (·.rows) = some [[1, 0, 0], [0, 1, 0], [0, 0, 0]] :=
+  ⟨{ rows := [[2, 1, 0], [0, 2, 1], [0, 0, 2]], q := [], gens := [5, 3, 2], removed := [], h := 8, qm := 0, qe := 0 },
+    by decide, by decide, by decide⟩
 
 end Ymq.C19
